@@ -87,6 +87,13 @@ S4Omega(k) == LET j == k % 8
 S4Sqrt2Pow(p) == IF p % 2 = 0 THEN <<XShift(XFromInt(1), p \div 2), XZero, XZero, XZero>>
                  ELSE LET d == XShift(XFromInt(1), (p - 1) \div 2) IN <<XZero, d, XZero, XNeg(d)>>
 S4One == S4Omega(0)
+\* Sum / Product over a sequence of values (folds from zero / one, like the iterator impls)
+RECURSIVE S4SumFrom(_, _)
+S4SumFrom(xs, k) == IF k > Len(xs) THEN S4Zero ELSE S4Add(xs[k], S4SumFrom(xs, k + 1))
+S4SumSeq(xs) == S4SumFrom(xs, 1)
+RECURSIVE S4ProdUpTo(_, _)
+S4ProdUpTo(xs, k) == IF k = 0 THEN S4One ELSE S4Mul(S4ProdUpTo(xs, k - 1), xs[k])
+S4ProdSeq(xs) == S4ProdUpTo(xs, Len(xs))
 S4IsZero(x) == \A i \in 1..4 : XIsZero(x[i])
 S4Vals(s) == [i \in 1..4 |-> Val(s[i])]
 S4Approx(s) == \E i \in 1..4 : s[i].ap
@@ -105,6 +112,25 @@ CloseSqrt2(out, a, w, M) ==
       W == XMulBig(w, Ten12)
       T == XAbs(M)
   IN XSignSqrt2(XNeg(W), XAdd(U, T)) >= 0 /\ XSignSqrt2(W, XSub(T, U)) >= 0
+(* AbsDiffEq for Scalar4: |Re x - Re y| <= eps /\ |Im x - Im y| <= eps with eps = 10^-10, computed by the code on the
+   two complex doubles.  With U = x1 - y1, W = (x2 - x4) - (y2 - y4):  Re x - Re y = U + W/sqrt2  (Im: U = x3 - y3,
+   W = (x2 + x4) - (y2 + y4)), and  |U + W/sqrt2| <= t  <=>  sqrt2 (t - U) - W >= 0  and  sqrt2 (t + U) + W >= 0.
+   The doubles carry the conversion error the property allows (10^-12 times the largest coefficient, each), so the
+   answer is only determined outside a band around eps: for operands whose coefficients are at most 4 in absolute
+   value (error of the difference <= 8 * 10^-12) the answer must be TRUE when both distances are <= 2^-34
+   (5.8 * 10^-11) and FALSE when one exceeds 2^-32 (2.3 * 10^-10); in between, and for larger operands, nothing is
+   demanded.  The relation is symmetric. *)
+AbsLeqSqrt2(U, W, t) == XSignSqrt2(XNeg(W), XSub(t, U)) >= 0 /\ XSignSqrt2(W, XAdd(t, U)) >= 0
+S4CloseWithin(x, y, t) ==
+  /\ AbsLeqSqrt2(XSub(x[1], y[1]), XSub(XSub(x[2], x[4]), XSub(y[2], y[4])), t)
+  /\ AbsLeqSqrt2(XSub(x[3], y[3]), XSub(XAdd(x[2], x[4]), XAdd(y[2], y[4])), t)
+EpsLo == [neg |-> FALSE, m |-> <<1>>, e |-> -34]
+EpsHi == [neg |-> FALSE, m |-> <<1>>, e |-> -32]
+AbsDiffEq4Judged(x, y) == XLeq(XMaxAbs({x[1], x[2], x[3], x[4], y[1], y[2], y[3], y[4]}), XFromInt(4))
+AbsDiffEq4OK(x, y, ret, rev) ==
+  /\ ret = rev
+  /\ S4CloseWithin(x, y, EpsLo) => ret
+  /\ ~S4CloseWithin(x, y, EpsHi) => ~ret
 ComplexValueOK(re, im, s) ==
   LET v == S4Vals(s)
       M == XMaxAbs({v[1], v[2], v[3], v[4]})
